@@ -98,6 +98,50 @@ def text_species(db, text):
     return sp, cds, problems
 
 
+def input_surface(text):
+    """what the FIRST `SURFACE` block of the input text says: {charge: dict(area, grams, cap0, cap1, ccm)}, {site element: sites}
+    (own small reader of the input; absolute site units only)"""
+    charges, sites, inblock, last, density = {}, {}, False, None, False
+    for raw in text.split("\n"):
+        line = raw.split("#")[0].strip()
+        if not line:
+            continue
+        w = line.split()
+        if w[0].lower() in dbparse.KEYWORDS:
+            if inblock:
+                break
+            inblock = w[0].lower() == "surface"
+            continue
+        if not inblock:
+            continue
+        if w[0].startswith("-"):
+            o = w[0].lower()
+            if o.startswith("-cap") and last:
+                charges[last]["cap0"], charges[last]["cap1"] = float(w[1]), float(w[2])
+            elif o.startswith("-ccm") and last:
+                charges[last]["cap0"] = float(w[1])
+            elif o.startswith("-sites"):
+                density = w[1].lower().startswith("d")
+            continue
+        m = re.match(r"([A-Z][a-z]*)_([a-z]+)", w[0])
+        if not m:
+            continue
+        ch, elt = m.group(1), m.group(0)
+        c = charges.setdefault(ch, {})
+        last = ch
+        related = len(w) > 2 and w[2].lower().startswith(("equ", "kin"))
+        nums = w[4:] if related else w[2:]
+        if not related:
+            sites[elt] = float(w[1])
+        if len(nums) >= 1:
+            c["area"] = float(nums[0])
+        if len(nums) >= 2 and not related:
+            c["grams"] = float(nums[1])
+    if density:
+        sites = {}
+    return charges, sites
+
+
 def d_lines(case_id, db, text, lines):
     """`D` lines (reading of the TEXT) for the surface species that occur in the dump `lines` of one case"""
     names = set()
@@ -108,6 +152,29 @@ def d_lines(case_id, db, text, lines):
         return []
     sp, cds, _ = text_species(db, text)
     out = []
+    # charges of the aqueous species as the database text spells them
+    aq = _DBCACHE[db].species
+    for ln in lines:
+        if ln.startswith("A "):
+            nm = unhex(ln.split()[1])
+            if nm in aq:
+                out.append(f"Z {case_id} {hexs(nm)} {hexd(aq[nm].z)}")
+    out = sorted(set(out))
+    # the first SURFACE block of the input: area, grams, capacitances, sites — tied to the first calculation with a surface
+    first = None
+    blk = -1
+    for ln in lines:
+        if ln.startswith("B "):
+            blk = int(ln.split()[2])
+        elif ln.startswith("G 1") and first is None:
+            first = blk
+    if first is not None:
+        charges, sites = input_surface(text)
+        for ch, c in charges.items():
+            out.append(" ".join(["I", str(case_id), str(first), "C", hexs(ch)] +
+                                [hexd(c.get(k, float("nan"))) for k in ("area", "grams", "cap0", "cap1")]))
+        for el, n in sites.items():
+            out.append(f"I {case_id} {first} S {hexs(el)} {hexd(n)}")
     for n in sorted(names):
         s = sp.get(n)
         if s is None or s.add_logk:
